@@ -40,15 +40,24 @@ Proof.
   intros [H|H]; [injection H as -> -> ->; auto | auto].
 Qed.
 
+Lemma in_combine_tmaps {T B C} (f : value * T -> B) (g : value -> C) (l : list (value * T)) a b c :
+  In (a, (b, c)) (combine (map fst l) (combine (map f l) (map g (map fst l)))) ->
+  (exists t, b = f (a, t)) /\ c = g a.
+Proof.
+  induction l as [|[x t] l IH]; cbn; [contradiction|].
+  intros [H|H]; [injection H as E1 E2 E3; subst; eauto | auto].
+Qed.
+
 (** the answers of the model for a duplicate-free, re-iterable FiniteDomain pass [bij_oracle],
     whatever values are probed (as long as the domain's own values are among them) *)
-Theorem bij_oracle_model k items probes : NoDup items -> (forall v, In v items -> In v probes) ->
+Theorem bij_oracle_model k items tprobes : NoDup items -> (forall v, In v items -> In v (map fst tprobes)) ->
   let d := mk_finite k items in
+  let probes := map fst tprobes in
   bij_oracle items (length items)
-             (combine probes (combine (map (dom_contains d) probes) (map (dom_numberize d) probes)))
+             (combine probes (combine (map (fun p => dom_contains d (fst p) (snd p)) tprobes) (map (dom_numberize d) probes)))
              (map (fun i => dom_denumberize d (vnat i)) (seq 0 (length items))) = true.
 Proof.
-  intros Hnd Hsub d. unfold bij_oracle. rewrite !andb_true_iff. repeat split.
+  intros Hnd Hsub d probes. subst probes. unfold bij_oracle. rewrite !andb_true_iff. repeat split.
   - apply Nat.eqb_refl.
   - apply (list_eqb_eq rvalue_eqb rvalue_eqb_eq). apply denumberize_all.
   - apply forallb_forall. intros v Hv.
@@ -56,8 +65,8 @@ Proof.
     exfalso. revert E. apply lookup_combine; auto.
     rewrite combine_length, !map_length. lia.
   - apply forallb_forall. intros [v [c n]] Hin.
-    apply in_combine_maps in Hin. destruct Hin as [-> ->].
-    subst d. cbn [mk_finite dom_contains dom_numberize].
+    apply in_combine_tmaps in Hin. destruct Hin as [[t ->] ->].
+    subst d. cbn [mk_finite dom_contains dom_numberize fst snd].
     rewrite (numberize_position items v Hnd). fold (memv items v).
     destruct (position items v) as [i|] eqn:P.
     + assert (Hm : memv items v = true).
@@ -68,31 +77,31 @@ Proof.
       rewrite Hm. apply andb_true_iff. split; [apply rbool_eqb_eq | apply rvalue_eqb_eq]; reflexivity.
 Qed.
 
-(** the answers of the model for a RangeDomain pass [range_oracle] on integral and non-numeric
-    probes (on a non-integer inside [0, n) they do not: C20_range_contains_refuted) *)
-Theorem range_oracle_model n probes : forallb integral_probe probes = true ->
+(** the answers of the model for a RangeDomain pass [range_oracle] on every well-typed probe *)
+Theorem range_oracle_model n tprobes : forallb int_flag_ok tprobes = true ->
   let d := DRange (Some n) in
+  let probes := map fst tprobes in
   range_oracle n (dom_size d)
-               (combine probes (combine (combine (map (dom_contains d) probes) (map (dom_numberize d) probes))
-                                        (map (dom_denumberize d) probes))) = true.
+               (combine tprobes (combine (combine (map (fun p => dom_contains d (fst p) (snd p)) tprobes)
+                                                  (map (dom_numberize d) probes))
+                                         (map (dom_denumberize d) probes))) = true.
 Proof.
-  intros Hint d. unfold range_oracle. apply andb_true_iff. split.
+  intros Hint d probes. unfold range_oracle. apply andb_true_iff. split.
   - cbn. apply Nat.eqb_refl.
-  - apply forallb_forall. intros [v [[c nu] de]] Hin.
-    assert (Hv : In v probes /\ c = dom_contains d v /\ nu = dom_numberize d v /\ de = dom_denumberize d v).
-    { clear Hint. induction probes as [|x l IH]; cbn in Hin; [contradiction|].
-      destruct Hin as [H|H]; [injection H as E1 E2 E3 E4; subst; cbn; auto|].
+  - apply forallb_forall. intros [[v b] [[c nu] de]] Hin.
+    assert (Hv : In (v, b) tprobes /\ c = dom_contains d v b /\ nu = dom_numberize d v /\ de = dom_denumberize d v).
+    { clear Hint. subst probes. induction tprobes as [|[x y] l IH]; cbn in Hin; [contradiction|].
+      destruct Hin as [H|H]; [injection H as E1 E2 E3 E4 E5; subst; cbn; auto|].
       destruct (IH H) as [H1 H2]. split; [right|]; auto. }
     destruct Hv as [Hv [-> [-> ->]]].
-    rewrite forallb_forall in Hint. specialize (Hint v Hv).
-    destruct v as [q|k].
-    + cbn [integral_probe] in Hint. apply Pos.eqb_eq in Hint.
-      assert (E : VNum q = vint (Qnum q)) by (destruct q as [a b]; cbn in Hint; subst; reflexivity).
-      rewrite E. subst d. rewrite range_contains_int. cbn [dom_numberize dom_denumberize].
+    rewrite forallb_forall in Hint. specialize (Hint _ Hv). cbv beta iota zeta.
+    destruct b.
+    + destruct (int_flag_vint v Hint) as [z ->]. subst d. rewrite range_contains_int.
+      cbn [andb dom_numberize dom_denumberize].
       apply andb_true_iff. split; [apply rbool_eqb_eq; reflexivity|].
-      destruct (in_range_int n (vint (Qnum q))); cbn [negb orb]; auto.
+      destruct (in_range_int n (vint z)); cbn [negb orb]; auto.
       apply andb_true_iff. split; apply rvalue_eqb_eq; reflexivity.
-    + reflexivity.
+    + cbn. reflexivity.
 Qed.
 
 (** the model's apply passes [apply_oracle] *)
@@ -107,8 +116,11 @@ Qed.
 
 Example range_oracle_example :
   let d := DRange (Some 3) in
-  let probes := [vint (-1); vint 0; vint 2; vint 3; VOther 5] in
+  let tprobes := [(vint (-1), true); (vint 0, true); (vint 2, true); (vint 2, false); (vint 3, true);
+                  (VNum (3#2), false); (VOther 5, false)] in
+  let probes := map fst tprobes in
   range_oracle 3 (dom_size d)
-    (combine probes (combine (combine (map (dom_contains d) probes) (map (dom_numberize d) probes))
-                             (map (dom_denumberize d) probes))) = true.
+    (combine tprobes (combine (combine (map (fun p => dom_contains d (fst p) (snd p)) tprobes)
+                                       (map (dom_numberize d) probes))
+                              (map (dom_denumberize d) probes))) = true.
 Proof. reflexivity. Qed.
